@@ -14,7 +14,7 @@ FrameS(t, s)      == [t |-> t, x |-> "-", y |-> "-", z |-> NoBody, s |-> s]
 
 NoFlags == [side |-> "-", didAllocate |-> FALSE, didClaim |-> FALSE, npid |-> "-", didRelease |-> FALSE,
             mb |-> "-", mbid |-> "-", listening |-> FALSE, didClose |-> FALSE]
-DownConn == [up |-> FALSE, closing |-> FALSE, c2s |-> <<>>, s2c |-> <<>>, f |-> NoFlags, gen |-> 0]
+DownConn == [up |-> FALSE, closing |-> FALSE, late |-> 0, c2s |-> <<>>, s2c |-> <<>>, f |-> NoFlags, gen |-> 0]
 
 NoNameplate == [mb |-> "-", sides |-> [s \in Sides |-> "none"]]
 NoMailbox   == [exists |-> FALSE, sides |-> [s \in Sides |-> "none"], mood |-> [s \in Sides |-> "-"], msgs |-> <<>>]
